@@ -212,10 +212,16 @@ func solve2(text, light string, timeout int, wantModel bool, all bool, tag strin
 	var errs []string
 	got := 0
 	var grace <-chan time.Time
+	var settle <-chan time.Time // thorough tier: how long the other solvers get after the first definite answer
 	for got < nproc {
 		var r res
 		select {
 		case r = <-ch:
+		case <-settle:
+			cancel()
+			final.All["note"] = "cross-check window closed: the solvers still running 30 s after the first definite answer were stopped"
+			got = nproc
+			continue
 		case <-grace:
 			// the hypothesis-reduced query is satisfiable and the full query has not been decided
 			// within the grace period: stop waiting (reported as undecided, like a timeout)
@@ -254,6 +260,9 @@ func solve2(text, light string, timeout int, wantModel bool, all bool, tag strin
 			if !all {
 				cancel()
 				break
+			}
+			if settle == nil {
+				settle = time.After(30 * time.Second)
 			}
 		}
 	}
